@@ -29,6 +29,8 @@ def run(ctx, rep):
     image_new(prog, rep)
     pixel_and_draw(prog, rep)
     contiguous_count(prog, rep)
+    from rules import c01 as _c01
+    _c01.image_paths(prog, rep)     # R01.5: Image::draw / ImageRaw::draw wiring on every path (whole-image path fills its own box)
     from rules import axis
     axis.run_for(prog, rep, 'R09.5', ['src/image'], 'image data is addressed as row * width + column and sub images are cut per axis')
     import witness
